@@ -535,3 +535,8 @@ def run(ctx: Ctx, rep: Report, tier: str):
     section(rep, c.p7)
     section(rep, c.p8)
     rep.assume("Python's OSError subclasses and errno values mean what the os module documents")
+    from rules.common import fs_events_trim_after_delivery, mock_rename_noop_is_exact
+    rep.rule("C16.P11", "no event is dropped undelivered: FileSystemProvider.events() trims its backlog only behind the delivery loop", 1)
+    section(rep, lambda: fs_events_trim_after_delivery(ctx, rep, "C16.P11"))
+    rep.rule("C16.P12", "a case-only rename is a rename for the mock too: MockProvider.rename's no-op shortcut is exact path equality", 1)
+    section(rep, lambda: mock_rename_noop_is_exact(ctx, rep, "C16.P12"))
